@@ -678,17 +678,55 @@ def _run_job(job):
   return {"obs": [[list(k), sorted(v)] for k, v in obs.items()], "stray": stray}
 
 
-def run_real(jobs, procs=16):
-  """jobs: list of (bases, pairs, sites); returns per job dict {(i, site): [error names]} (absent = no error)"""
-  if len(jobs) <= 2:
-    outs = [_run_job(j) for j in jobs]
+def _run_job_idx(ij):
+  return ij[0], _run_job(ij[1])
+
+
+class _Alarm(Exception):
+  pass
+
+
+def _alarm_handler(signum, frame):
+  raise _Alarm()
+
+
+def run_real(jobs, procs=16, stall_s=None):
+  """jobs: list of (bases, pairs, sites); returns per job {"obs": {(i, site): [error names]}, "stray": [...]}
+  (absent key = no error), {"crash": ...} or {"timeout": True} (a module the real code did not finish within
+  `stall_s` seconds after all other modules were done; normal is a few seconds)."""
+  import signal
+  stall_s = stall_s or int(os.environ.get("C02_STALL_S", "420"))
+  outs = [None] * len(jobs)
+  if len(jobs) <= 1:
+    for i, j in enumerate(jobs):
+      old = signal.signal(signal.SIGALRM, _alarm_handler)
+      signal.alarm(stall_s)
+      try:
+        outs[i] = _run_job(j)
+      except _Alarm:
+        outs[i] = {"timeout": True}
+      finally:
+        signal.alarm(0)
+        signal.signal(signal.SIGALRM, old)
   else:
     ctx = multiprocessing.get_context("fork")
-    with ctx.Pool(min(procs, len(jobs)), initializer=_worker_init) as pool:
-      outs = pool.map(_run_job, jobs, chunksize=1)
+    pool = ctx.Pool(min(procs, len(jobs)), initializer=_worker_init)
+    try:
+      it = pool.imap_unordered(_run_job_idx, list(enumerate(jobs)), chunksize=1)
+      for _ in range(len(jobs)):
+        try:
+          i, o = it.next(timeout=stall_s)
+        except multiprocessing.TimeoutError:
+          break
+        outs[i] = o
+    finally:
+      pool.terminate()
+      pool.join()
   res = []
   for o in outs:
-    if "crash" in o:
+    if o is None:
+      res.append({"timeout": True})
+    elif "crash" in o or "timeout" in o:
       res.append(o)
     else:
       res.append({"obs": {(k[0], k[1]): v for k, v in o["obs"]}, "stray": o["stray"]})
@@ -797,8 +835,12 @@ def batches_of(pairs, rng, size=20):
 # ----------------------------------------------------------------------------------------------
 # K — correspondence: real pytype at the three sites vs the Lean model
 # ----------------------------------------------------------------------------------------------
+TIMED_OUT = []
+
+
 def correspond(res, rng, tier):
   t0 = time.time()
+  del TIMED_OUT[:]
   drv = common.ensure_driver("drv_c02")
   nrand = 1000 if tier == "quick" else 6200
   pairs = exhaustive_atoms()
@@ -848,6 +890,12 @@ def correspond(res, rng, tier):
   crash_samples = []
   stats["collection_checks_crashed"] = 0
   for (mode, (bases, mros, ps)), pr, ob in zip(groups, pred, real):
+    if "timeout" in ob:
+      TIMED_OUT.append(len(disagreements))
+      disagreements.append({"kind": "real-code-timeout", "bases": bases, "mode": mode,
+                            "pairs": [[tojson(a), tojson(v)] for a, v in ps],
+                            "note": "pytype did not finish this module (normal: seconds)"})
+      continue
     if "crash" in ob and mode == "one-sided":
       # known finding c02-collection-report-crash: pytype can crash while *printing* the error of a failing view
       # after a structural Collection match.  Re-run every check of the module on its own; checks that still
@@ -953,9 +1001,14 @@ def real_verdicts(bases, pairs, isolate=False):
     res = {}
     for j, o in enumerate(outs):
       i, s = divmod(j, len(SITES))
-      res[(i, SITES[s])] = "crash: " + o["crash"] if "crash" in o else bool(o["obs"].get((0, SITES[s])))
+      if "timeout" in o:
+        res[(i, SITES[s])] = "timeout: the real code did not finish"
+      else:
+        res[(i, SITES[s])] = "crash: " + o["crash"] if "crash" in o else bool(o["obs"].get((0, SITES[s])))
     return res
   out = run_real([(bases, pairs, SITES)])[0]
+  if "timeout" in out:
+    raise RuntimeError("timeout: the real code did not finish")
   if "crash" in out:
     raise RuntimeError(out["crash"])
   return {(i, s): bool(out["obs"].get((i, s))) for i in range(len(pairs)) for s in SITES}
@@ -1151,13 +1204,15 @@ def search(res, rng, disagreements, pfail):
       jobs.append((b, ps[i:i + 20], SITES))
   outs = run_real(jobs)
   for (b, ps, _), o in zip(jobs, outs):
+    if "timeout" in o:
+      continue
     if "crash" in o:
       # find the crashing check(s); a crash on a Collection annotation is the known finding c02-collection-report-crash
       verd = real_verdicts(b, ps, isolate=True)
       o = {"obs": {}}
       for (i, s), e in verd.items():
         if isinstance(e, str):
-          if not has_coll(ps[i][0]):
+          if not has_coll(ps[i][0]) and e.startswith("crash"):
             found.append({"kind": "real-code-crash", "exception": e, "pair": pair_repr(b, ps[i][0], ps[i][1], s),
                           "program": build_module(b, [ps[i]], (s,))[0]})
           o["obs"][(i, s)] = None
@@ -1177,6 +1232,8 @@ def search(res, rng, disagreements, pfail):
         if err == mem and known_region(a, v, s, err, mem, env) is None:
           found.append({"bases": b, "ann": a, "val": v, "site": s, "error": err, "member": mem})
   res.cov["search_pairs_tried"] = tried
+  if not found and not pfail and disagreements and all(d.get("kind") == "real-code-timeout" for d in disagreements):
+    raise common.Timeout("pytype did not finish %d generated module(s); no verdict" % len(disagreements))
   # shrink the smallest few to a single (annotation, value, site)
   real_found = [f for f in found if "ann" in f]
   real_found.sort(key=lambda f: len(ann_py(f["ann"])) + len(val_py(f["val"])))
@@ -1237,8 +1294,12 @@ def prepare():
 def main():
   common.ensure_ext()
   prepare()
-  return common.run_check("C02", REQUIRED, correspond, witnesses, search, trusted=TRUSTED, assumptions=ASSUMPTIONS,
-                          extra_targets=("drv_c02",))
+  try:
+    return common.run_check("C02", REQUIRED, correspond, witnesses, search, trusted=TRUSTED,
+                            assumptions=ASSUMPTIONS, extra_targets=("drv_c02",))
+  except common.Timeout as e:   # a timeout is never a VIOLATION
+    print("TIMEOUT property=C02 %s" % e, file=sys.stderr)
+    return 2
 
 
 if __name__ == "__main__":
